@@ -429,9 +429,10 @@ func keyExchange(klen int, ida, idb []byte, pri *PrivateKey, pub *PublicKey, rpr
 		err = errors.New("kdf: zero key")
 		return
 	}
-	h1 := BytesCombine(vx.Bytes(), za, zb, rpub.X.Bytes(), rpub.Y.Bytes(), rpri.X.Bytes(), rpri.Y.Bytes())
+	// Hash(xV || ZA || ZB || x1 || y1 || x2 || y2) with (x1,y1) = RA and (x2,y2) = RB
+	h1 := BytesCombine(vx.Bytes(), za, zb, rpri.X.Bytes(), rpri.Y.Bytes(), rpub.X.Bytes(), rpub.Y.Bytes())
 	if !thisISA {
-		h1 = BytesCombine(vx.Bytes(), za, zb, rpri.X.Bytes(), rpri.Y.Bytes(), rpub.X.Bytes(), rpub.Y.Bytes())
+		h1 = BytesCombine(vx.Bytes(), za, zb, rpub.X.Bytes(), rpub.Y.Bytes(), rpri.X.Bytes(), rpri.Y.Bytes())
 	}
 	hash := sm3.Sm3Sum(h1)
 	h2 := BytesCombine([]byte{0x02}, vy.Bytes(), hash)
